@@ -2,6 +2,8 @@
 import re
 from mirsym import mir, smt, modeb
 from mirsym_run import Q
+import os
+from common import *
 
 LEVEL = "other"
 EXPLANATION = ("mirsym Mode B: solver-decided ordering obligations over the file-system events of the writers (MIR regenerated from /repo each "
@@ -64,6 +66,8 @@ def build_shard(fns):
     modeb.no_path_query(g, sc, "merged shard: the hash is taken after the copy", [g.entry], hs, cp)
     modeb.no_path_query(g, sc, "merged shard: the content-hash name is formed from the hash taken after the last write", [g.entry], fin, hs)
     modeb.no_path_query(g, sc, "merged shard: a failed copy or flush is never followed by the rename", modeb.after(g, g.blocks_calling(RESID)), ren, [])
+    rmv = g.blocks_calling(r"std::fs::remove_file|std::fs::remove_dir")
+    modeb.no_path_query(g, sc, "merged shard: writing a shard never deletes a file (an existing shard of the same name is replaced by the atomic rename)", [g.entry], rmv or ["__none__"], []) if rmv else sc.query("merged shard: writing a shard never deletes a file", ["false"])
     out.append(sc)
 
     sc = smt.Script("c19_consolidate")
@@ -141,10 +145,29 @@ def build_local(fns):
     return [sc]
 
 
+
+def _native(testfile, testfn, tag):
+    def run(model, fnd, prop):
+        env = base_env()
+        env["CARGO_TARGET_DIR"] = os.path.join(BUILD, "replay_target")
+        cmd = ["cargo", "test", "--offline", "--test", testfile] + (["--", testfn] if testfn else [])
+        rc, out = sh(cmd, cwd=os.path.join(VERIF, "replay"), env=env, timeout=2400, log=os.path.join(LOGS, "replay_%s_%s.log" % (testfile, testfn or "all")))
+        path = os.path.join(VERIF, "replay", "tests", testfile + ".rs")
+        if "test result: FAILED" in out:
+            m = re.search(tag + r" violated: [^\n]*", out)
+            return True, path, m.group(0)[:240] if m else ("native replay fails: " + (re.search(r"panicked at [^\n]*\n[^\n]*", out).group(0).replace("\n", " ")[:200] if re.search(r"panicked at [^\n]*\n[^\n]*", out) else "test failed"))
+        if re.search(r"test result: ok. [1-9]\d* passed", out):
+            return False, path, "native replay %s passes" % (testfn or testfile)
+        return None, path, "native replay inconclusive (rc=%s)" % rc
+    return run
+
+
 SMT = [
     Q("c19_shard_writers", "shard flush / merge / consolidation event order", "mdb_shard", build_shard, bounds="all CFG paths", solvers=("z3", "cvc5-bv"),
+      replay=_native("c19_write_faults", "consolidation_write_fault_loses_no_records", "C19"),
       functions=["mdb_shard::shard_in_memory::MDBInMemoryShard::{write_to_directory, write_to_temp_shard_file}", "mdb_shard::shard_file_handle::MDBShardFile::write_out_from_reader", "mdb_shard::session_directory::consolidate_shards_in_directory"]),
     Q("c19_safe_file_creator", "temp-file + rename discipline of SafeFileCreator", "file_utils", build_sfc, bounds="all CFG paths", solvers=("z3", "cvc5-bv"),
+      replay=_native("c19_write_faults", "safe_file_creator_never_exposes_a_partial_file", "C19"),
       functions=["file_utils::safe_file_creator::SafeFileCreator::{new, close}"]),
     Q("c19_disk_cache_put", "chunk cache insert: file first, state commit second, deletions last", "chunk_cache", build_cache, bounds="all CFG paths", solvers=("z3", "cvc5-bv"),
       functions=["chunk_cache::disk::DiskCache::put_impl"]),
